@@ -30,10 +30,12 @@ Existing == 0 .. Len(restarts) - 1
 Min(S) == CHOOSE x \in S : \A y \in S : x <= y
 Max(S) == CHOOSE x \in S : \A y \in S : x >= y
 (* what is on disk for restart r *)
-AnyIts(r) == UNION {Its(r, l) : l \in 0 .. nlev - 1}
+(* levels that were written: 0 .. nlev-1, except that nlev = 3 stands for output of levels 0 and 2 only (a gap) *)
+Levels    == IF nlev = 3 THEN {0, 2} ELSE 0 .. nlev - 1
+AnyIts(r) == UNION {Its(r, l) : l \in Levels}
 Scan(r) == [its |-> <<Min(AnyIts(r)), Max(AnyIts(r))>>,
             vars |-> {"alpha", "betaup3"} \cup VarSets[(r % Len(VarSets)) + 1],
-            rl  |-> [l \in 0 .. nlev - 1 |->
+            rl  |-> [l \in Levels |->
                        IF Cardinality(Its(r, l)) = 1 THEN <<Min(Its(r, l))>>
                        ELSE <<Min(Its(r, l)), Max(Its(r, l)), IF l = 0 THEN restarts[r + 1].every0 ELSE restarts[r + 1].every1>>],
             chk |-> restarts[r + 1].chk]
@@ -97,5 +99,6 @@ EmitState == (Emit /\ hist # << >>) =>
                    restarts |-> restarts,
                    recorded |-> recorded,
                    scan |-> [k \in 1 .. Len(restarts) |-> Scan(k - 1)],
-                   allits |-> [l \in 0 .. nlev - 1 |-> UNION {Its(r, l) : r \in Range(recorded)}]]))
+                   levels |-> Levels,
+                   allits |-> [l \in Levels |-> UNION {Its(r, l) : r \in Range(recorded)}]]))
 =============================================================================
